@@ -1471,6 +1471,9 @@ func (r *Runtime) RunProgram(p *Program) (result Value, err error) {
 			if ex := asUncatchableException(x); ex != nil {
 				err = ex
 				if len(vm.callStack) == 0 {
+					// (the interrupted program must not show up as a frame of later calls)
+					vm.prg = nil
+					vm.sb = -1
 					r.leaveAbrupt()
 				}
 				vm.vt("ApiExit", "uncatchable")
